@@ -349,9 +349,9 @@ Proof.
 Qed.
 
 (* Topology.add_network_service without interfaces *)
-Lemma api_add_ns_nil sub name sid nstype s s' r :
+Lemma api_add_ns_nil fl sub name sid nstype s s' r :
   WF (sg s) -> type_allowed KNS nstype = true ->
-  t_add_ns sub name sid nstype [] s = (s', r) -> WF (sg s').
+  t_add_ns fl sub name sid nstype [] s = (s', r) -> WF (sg s').
 Proof.
   intros W T H. unfold t_add_ns in H. apply bind_inv in H as [[s1 [id [H1 H2]]]|[e [H1 _]]].
   - simpl in H2. apply ret_inv in H2 as [-> _]. eapply api_new_service_top; eauto.
@@ -383,14 +383,17 @@ Proof.
   pose proof (wf_new_node_ok g n W Hn) as N. unfold new_node_ok, fields_ok, vocab_ok, vocab_ok_in in *. rewrite B, C, D. exact N.
 Qed.
 
-Lemma api_set_property rf p v s s' r :
+Lemma api_set_property fl rf p v s s' r :
   WF (sg s) ->
   (p = PName -> relabel_ok (sg s) (ref_id rf) (set_name v) = true) ->
   (p = PTypeNode -> relabel_ok (sg s) (ref_id rf) (set_typ v) = true) ->
-  elem_set_property rf p v s = (s', r) -> WF (sg s').
+  elem_set_property fl rf p v s = (s', r) -> WF (sg s').
 Proof.
   intros W HN HT H. unfold elem_set_property in H. destruct p.
-  - peel H W. eapply api_update_node; eauto.
+  - apply bind_reads in H; [| destruct (fl_rename_check fl); solve [auto 8 with reads]].
+    destruct H as [[s1 [u [Hm [Hg H]]]] | [e [Hr Hg]]]; [| rewrite Hg; exact W].
+    rewrite <- Hg in W. specialize (HN eq_refl). rewrite <- Hg in HN. clear Hg Hm.
+    peel H W. eapply api_update_node; eauto.
   - destruct rf; try (apply raise_inv in H as [-> _]; exact W);
       (eapply api_update_node; [exact W | | exact H]; apply relabel_ok_neutral; [exact W | intro n; auto]).
   - eapply api_update_node; [exact W | | exact H]. apply relabel_ok_neutral; [exact W | intro n; auto].
@@ -421,18 +424,27 @@ Proof.
   - subst n. rewrite Em in Ex. discriminate.
 Qed.
 
-Lemma api_rename rf new s s' r :
+Lemma set_name_ok_graph fl rf v s s1 :
+  elem_set_property fl rf PName v s = (s1, Ok tt) -> sg s1 = g_update (sg s) (ref_id rf) (set_name v).
+Proof.
+  intro H. unfold elem_set_property in H.
+  apply bind_reads in H; [| destruct (fl_rename_check fl); solve [auto 8 with reads]].
+  destruct H as [[s2 [u [_ [Hg H]]]] | [e [Hr _]]]; [|discriminate]. rewrite <- Hg. clear Hg.
+  apply bind_reads in H; [| solve [auto 8 with reads]].
+  destruct H as [[s3 [u' [_ [Hg H]]]] | [e [Hr _]]]; [|discriminate]. rewrite <- Hg. clear Hg.
+  apply update_node_inv in H as [[_ Hg]|[e [He _]]]; [exact Hg | discriminate].
+Qed.
+
+Lemma api_rename fl rf new s s' r :
   WF (sg s) -> relabel_ok (sg s) (ref_id rf) (set_name new) = true ->
-  elem_rename rf new s = (s', r) -> WF (sg s').
+  elem_rename fl rf new s = (s', r) -> WF (sg s').
 Proof.
   intros W OK H. unfold elem_rename in H. apply bind_inv in H as [[s1 [[] [H1 H2]]]|[e [H1 _]]].
-  - unfold elem_set_property in H1. apply bind_inv in H1 as [[s2 [[] [H0 H1]]]|[e [H0 He]]].
-    + apply guard_ok_val in H0 as [-> _]. apply update_node_inv in H1 as [[_ Hg]|[e [He _]]]; [|discriminate].
-      eapply api_update_node; [| | exact H2].
-      * rewrite Hg. apply WF_relabel; assumption.
-      * rewrite Hg. apply relabel_ok_again. exact W.
-    + discriminate He.
-  - apply (api_set_property rf PName new s s' (Err e) W (fun _ => OK)); [intro X; discriminate X | exact H1].
+  - apply set_name_ok_graph in H1.
+    eapply api_update_node; [| | exact H2].
+    + rewrite H1. apply WF_relabel; assumption.
+    + rewrite H1. apply relabel_ok_again. exact W.
+  - apply (api_set_property fl rf PName new s s' (Err e) W (fun _ => OK)); [intro X; discriminate X | exact H1].
 Qed.
 
 (* ---- remove_link ------------------------------------------------------------------------------------- *)
@@ -490,8 +502,8 @@ Proof.
 Qed.
 #[export] Hint Resolve reads_find_node_by_name : reads.
 
-Lemma api_remove_link name s s' r :
-  WF (sg s) -> remove_link_pre (sg s) name = true -> t_remove_link name s = (s', r) -> WF (sg s').
+Lemma api_remove_link fl name s s' r :
+  WF (sg s) -> remove_link_pre (sg s) name = true -> t_remove_link fl name s = (s', r) -> WF (sg s').
 Proof.
   intros W P H. unfold t_remove_link in H.
   apply bind_reads in H; [| solve [auto 8 with reads]].
@@ -500,10 +512,11 @@ Proof.
   apply bind_reads in H; [| unfold cps_of_ns_or_link; solve [auto 8 with reads]].
   destruct H as [[s2 [cps [Hm [Hg H]]]] | [e [Hr Hg]]]; [| rewrite Hg; exact W].
   rewrite <- Hg in W, P, Hn. clear Hg Hm.
+  peel H W. peel H W.
   unfold remove_network_link in H.
   apply bind_reads in H; [| solve [auto 8 with reads]].
-  destruct H as [[s3 [u [Hm [Hg H]]]] | [e [Hr Hg]]]; [| rewrite Hg; exact W].
-  rewrite <- Hg in W, P, Hn. clear Hg Hm.
+  destruct H as [[s3 [u [Hm' [Hg H]]]] | [e [Hr Hg]]]; [| rewrite Hg; exact W].
+  rewrite <- Hg in W, P, Hn. clear Hg Hm'.
   apply delete_node_inv in H as [[_ Hg]|[e [_ Hg]]]; rewrite Hg; [|exact W].
   rewrite g_del_node_remove_set. apply WF_remove_set; [exact W|].
   assert (Hl : cls_is (sg s3) l KLink = true) by (rewrite <- Hid, (cls_is_node _ n _ (wf_ids _ W) Hn), Hc; reflexivity).
@@ -702,17 +715,14 @@ Qed.
 Lemma mem_enum_allowed k l t : (forall t, In t l -> type_allowed k t = true) -> mem_str t l = true -> type_allowed k t = true.
 Proof. intros H M. apply H. apply mem_str_In. exact M. Qed.
 
-Lemma service_type_ok t : mem_str t enum_service_types && negb (str_eqb t sL2Multisite) = true -> type_allowed KNS t = true.
-Proof.
-  intro H. apply andb_true_iff in H as [H1 H2]. apply negb_true_iff in H2.
-  apply service_types_in_vocab_partial; [apply mem_str_In; exact H1 | apply str_eqb_neq; exact H2].
-Qed.
+Lemma service_type_ok t : mem_str t enum_service_types = true -> type_allowed KNS t = true.
+Proof. intro H. apply service_types_in_vocab. apply mem_str_In. exact H. Qed.
 
 Lemma reads_for_each_need l : reads (for_each l (need KCP)).
 Proof. apply reads_for_each. intro. apply reads_need. Qed.
 
-Lemma run_op_preserves sub hint o s s' r :
-  WF (sg s) -> op_pre (sg s) o = true -> run_op sub hint o s = (s', r) -> WF (sg s').
+Lemma run_op_preserves sub fl hint o s s' r :
+  WF (sg s) -> op_pre (sg s) o = true -> run_op sub fl hint o s = (s', r) -> WF (sg s').
 Proof.
   intros W P R. destruct o; simpl in P; try discriminate P; unfold run_op in R.
   - (* add_node *)
@@ -721,7 +731,7 @@ Proof.
   - (* add_network_service without interfaces *)
     destruct ifs; [|discriminate P]. simpl in R.
     apply bind_inv in R as [[s1 [[] [R1 R2]]]|[e0 [R1 _]]]; [|apply ret_inv in R1 as [_ R1]; discriminate].
-    apply ret_inv in R1 as [-> _]. eapply api_add_ns_nil; [exact W | apply service_type_ok; exact P | exact R2].
+    apply ret_inv in R1 as [-> _]. eapply (api_add_ns_nil fl); [exact W | apply service_type_ok; exact P | exact R2].
   - (* node.add_network_service *)
     peel R W.
     apply bind_inv in R as [[s1 [id [R1 R2]]]|[e0 [R1 _]]]; [apply ret_inv in R2 as [-> _]|];
@@ -744,19 +754,19 @@ Proof.
     peel R W. eapply api_unset_property; eauto.
 Qed.
 
-Theorem step_preserves_partial sub g o drawn hint g' out :
-  WF g -> op_pre g o = true -> step sub g o drawn hint = (g', out) -> WF g'.
+Theorem step_preserves_partial sub fl g o drawn hint g' out :
+  WF g -> op_pre g o = true -> step sub fl g o drawn hint = (g', out) -> WF g'.
 Proof.
   intros W P H. unfold step in H.
-  destruct (run_op sub hint o (mkSt g drawn)) as [s' [u|e]] eqn:R; inversion H; subst;
-    eapply (run_op_preserves sub hint o (mkSt g drawn)); eauto.
+  destruct (run_op sub fl hint o (mkSt g drawn)) as [s' [u|e]] eqn:R; inversion H; subst;
+    eapply (run_op_preserves sub fl hint o (mkSt g drawn)); eauto.
 Qed.
 
-Theorem histories_partial sub h : forall g, WF g -> pre_along sub g h = true -> WF (run_hist sub g h).
+Theorem histories_partial sub fl h : forall g, WF g -> pre_along sub fl g h = true -> WF (run_hist sub fl g h).
 Proof.
   induction h as [|[[o dr] hi] h IH]; intros g W P; simpl in *; [exact W|].
   apply andb_true_iff in P as [P1 P2]. apply IH; [|exact P2].
-  destruct (step sub g o dr hi) as [g' out] eqn:E. simpl. eapply step_preserves_partial; eauto.
+  destruct (step sub fl g o dr hi) as [g' out] eqn:E. simpl. eapply step_preserves_partial; eauto.
 Qed.
 
 Lemma WF_empty : WF empty_graph.
